@@ -26,8 +26,9 @@ enum { EV_ADD = 0, EV_RUN, EV_REPLY_OLDEST, EV_REPLY_NEWEST, EV_REPLY_DUP, EV_RE
        EV_READD,                   /* the application submits a handle it got back once more (a new request with the same hash): only in part "readd" */
        EV_RUN_PUMP,                /* KSI_AsyncService_run without a receiving handle pointer (the application only wants the service to make progress): only in part "pump" */
        EV_SNDBUF_FULL,             /* the socket's send buffer is full at the next poll (the connection is not reported writable): only in part "sndbuf" */
+       EV_POLL_FAIL,               /* the next poll() on the established connection fails (EIO): only in part "pollfail" */
        EV_NALL };
-static const char EVCH[EV_NALL + 1] = "ARonduxmseg1haCXPwp+TKGZNf";
+static const char EVCH[EV_NALL + 1] = "ARonduxmseg1haCXPwp+TKGZNfE";
 
 typedef struct { int cache, maxreq; long long snd, rcv, con; } config_t;
 
@@ -63,7 +64,7 @@ typedef struct {
 	vbuf last_valid_reply; uint64_t last_valid_id; unsigned last_valid_seed;
 	uint64_t last_returned_id;
 	size_t budget;                  /* bytes the client may still read */
-	int next_connect_refused, next_connect_pending, send_wouldblock, send_partial, sndbuf_full;
+	int next_connect_refused, next_connect_pending, send_wouldblock, send_partial, sndbuf_full, poll_fail, poll_failed_now;
 	int cause_baddata, cause_status, cause_conn, cause_connect_pending, cause_connect_timeout;
 	time_t connect_started; int connecting;
 	long step;                      /* events applied so far */
@@ -80,7 +81,7 @@ static int g_keep;                 /* returned handles are kept for re-submissio
 static world_t W;
 static char g_hist[40];
 static int g_cfg;
-#define HF(sig, ...) do { char _m[900]; snprintf(_m, sizeof _m, __VA_ARGS__); vf_fail(sig, "%s [history %s cfg %d; letters ARonduxmseg1haCXPwp+T = add,run,reply-oldest,reply-newest,dup,unknown-id,stale-id,bad-mac,status,error-pdu,push-conf,deliver1,half,all,peer-close,refuse-next-connect,pending-connect,send-wouldblock,send-partial,clock+1,clock+big; K = add configuration request, G = grow cache, Z = re-add the handle returned last, N = run without a receiving handle pointer, f = send buffer full at the next poll]", _m, g_hist, g_cfg); } while (0)
+#define HF(sig, ...) do { char _m[900]; snprintf(_m, sizeof _m, __VA_ARGS__); vf_fail(sig, "%s [history %s cfg %d; letters ARonduxmseg1haCXPwp+T = add,run,reply-oldest,reply-newest,dup,unknown-id,stale-id,bad-mac,status,error-pdu,push-conf,deliver1,half,all,peer-close,refuse-next-connect,pending-connect,send-wouldblock,send-partial,clock+1,clock+big; K = add configuration request, G = grow cache, Z = re-add the handle returned last, N = run without a receiving handle pointer, f = send buffer full at the next poll, E = the next poll() on the connection fails]", _m, g_hist, g_cfg); } while (0)
 
 /* ------------------------------------------------------------------ environment hooks */
 static int h_connect(sn_conn *c) {
@@ -147,6 +148,7 @@ static int h_poll(sn_conn *c, short events, short *revents) {
 		if (c->connect_polls > 0) { if (c->connect_polls < 1000000) c->connect_polls--; *revents = 0; return 0; }
 		c->state = SN_CONNECTED; W.connecting = 0;
 	}
+	if (c->state == SN_CONNECTED && W.poll_fail) { W.poll_fail = 0; W.poll_failed_now = 1; W.cause_conn = (int)W.step + 1; return -EIO; }
 	if (c->state == SN_CONNECTED) {
 		if (W.sndbuf_full) W.sndbuf_full = 0;   /* this once the send buffer is full */
 		else rev |= POLLOUT;
@@ -503,7 +505,20 @@ static int apply_inner(int ev) {
 			}
 			return 1;
 		}
-		case EV_RUN: do_run(); return 1;
+		case EV_RUN: {
+			int before[64], nb = 0, i, k;
+			for (i = 0; i < W.nreq && nb < 64; i++) if (!W.req[i].is_conf && W.req[i].sent_complete && !W.req[i].returned) before[nb++] = i;
+			W.poll_failed_now = 0;
+			do_run();
+			/* a connection that fails under the client ends the requests waiting on it with a network error, now: they are handed back by the
+			 * following calls without any time passing (not left to run into their receive time-out) */
+			if (W.poll_failed_now && !W.violated) {
+				for (k = 0; k < nb + 2 && !W.violated; k++) do_run();
+				for (i = 0; i < nb && !W.violated; i++) if (!W.req[before[i]].returned) { HF("connection-failure-not-reported", "poll() failed on the connection request #%d was waiting on, but %d calls later (no time has passed) the request has not been handed back", before[i], nb + 3); W.violated = 1; }
+			}
+			W.poll_failed_now = 0;
+			return 1;
+		}
 		case EV_RUN_PUMP: g_run_pump = 1; do_run(); return 1;
 		case EV_REPLY_OLDEST: case EV_REPLY_NEWEST: {
 			int k = ev == EV_REPLY_OLDEST ? oldest : newest;
@@ -584,6 +599,7 @@ static int apply_inner(int ev) {
 		case EV_SEND_WOULDBLOCK: if (W.send_wouldblock || W.send_partial) return 0; W.send_wouldblock = 1; return 1;
 		case EV_SEND_PARTIAL: if (W.send_wouldblock || W.send_partial) return 0; W.send_partial = 1; return 1;
 		case EV_SNDBUF_FULL: if (W.sndbuf_full || !c) return 0; W.sndbuf_full = 1; return 1;
+		case EV_POLL_FAIL: if (W.poll_fail || !c) return 0; W.poll_fail = 1; return 1;
 		case EV_CLOCK_1: sn_now += 1; return 1;
 		case EV_CLOCK_BIG: { long long m = W.cfg.snd; if (W.cfg.rcv > m && W.cfg.rcv < 1000000) m = W.cfg.rcv; if (W.cfg.con > m && W.cfg.con < 1000000) m = W.cfg.con; sn_now += (time_t)(m + 2); return 1; }   /* "never" time-outs (2^31 and more) are not waited for */
 	}
@@ -594,7 +610,7 @@ static int apply_inner(int ev) {
 static void drain(void) {
 	int rounds;
 	sn_conn *c;
-	W.send_wouldblock = W.send_partial = W.sndbuf_full = 0;
+	W.send_wouldblock = W.send_partial = W.sndbuf_full = W.poll_fail = 0;
 	for (rounds = 0; rounds < (W.cfg.rcv > 1000 ? 14 : 60) && (outstanding() > 0 || rounds < 3); rounds++) {
 		c = live_conn();
 		if (c) W.budget = c->in.n - c->in_off;
@@ -641,7 +657,7 @@ static uint64_t state_key(void) {
 		h = mix(h, c ? (uint64_t)c->state : 99);
 		if (c) { h = mix(h, c->peer_closed); h = mix(h, c->out.n - c->parsed_out); h = mix(h, c->in.n - c->in_off); h = vf_fnv(c->in.p + c->in_off, c->in.n - c->in_off, h); h = mix(h, c->connect_polls > 0); }
 	}
-	h = mix(h, W.budget); h = mix(h, (uint64_t)W.next_connect_refused); h = mix(h, (uint64_t)W.next_connect_pending); h = mix(h, (uint64_t)W.send_wouldblock); h = mix(h, (uint64_t)W.send_partial); h = mix(h, (uint64_t)W.sndbuf_full);
+	h = mix(h, W.budget); h = mix(h, (uint64_t)W.next_connect_refused); h = mix(h, (uint64_t)W.next_connect_pending); h = mix(h, (uint64_t)W.send_wouldblock); h = mix(h, (uint64_t)W.send_partial); h = mix(h, (uint64_t)W.sndbuf_full); h = mix(h, (uint64_t)W.poll_fail);
 	h = mix(h, (uint64_t)((W.cause_baddata != 0) | (W.cause_status != 0) << 1 | (W.cause_conn != 0) << 2 | (W.cause_connect_pending != 0) << 3 | (W.cause_connect_timeout != 0) << 6 | W.conf_pending << 4 | W.connecting << 5));
 	h = mix(h, (uint64_t)W.nreq); h = mix(h, (uint64_t)W.nreturned); h = mix(h, W.last_valid_reply.n != 0); h = mix(h, W.last_returned_id);
 	for (k = 0; k < W.nreq; k++) {
@@ -1018,6 +1034,29 @@ static void part_sndbuf(void) {
 	}
 }
 
+/* poll() itself fails on the established connection: the requests waiting on it end with a network error at once, the others travel
+ * on a fresh connection */
+static void part_pollfail(void) {
+	static const int ALPHA[] = {EV_ADD, EV_RUN, EV_POLL_FAIL, EV_REPLY_OLDEST, EV_DELIVER_ALL, EV_CLOCK_1, EV_SEND_PARTIAL, EV_PEER_CLOSE};
+	static const int CFGI[] = {1, 0};
+	int na = 8, ci, a2, depth = VF_THOROUGH ? 9 : 7, e;
+	for (ci = 0; ci < 2; ci++) for (a2 = 0; a2 < na; a2++) {
+		int hist[16];
+		if (!vf_case_begin("pollfail:cfg%d:A%c:d%d", CFGI[ci], EVCH[ALPHA[a2]], depth)) continue;
+		g_nalpha = 0;
+		for (e = 0; e < na; e++) g_alpha[g_nalpha++] = ALPHA[e];
+		memset(seen, 0, ((size_t)1 << SEEN_BITS) * sizeof *seen);
+		n_states = n_transitions = n_pruned = n_traces = 0;
+		hist[0] = EV_ADD; hist[1] = ALPHA[a2];
+		explore(&CONFIGS[CFGI[ci]], hist, 2, depth);
+		vf_count("states", n_states); vf_count("transitions", n_transitions); vf_count("traces", n_traces); vf_count("pruned_revisits", n_pruned);
+		if (ci == 0 && a2 == 2) vf_sample("pollfail part: cfg %d prefix AE depth %d over {add, run, poll fails, reply, deliver all, clock +1, partial send, peer close}: %ld states, %ld transitions", CFGI[ci], depth, n_states, n_transitions);
+		vf_obs("states=%ld", n_states);
+		alpha_main();
+		vf_case_end(n_traces > 0);
+	}
+}
+
 static void part_dfs2(void) {
 	static const int CFG_IDX[] = {1, 6, 2, 6};
 	int ci, p1, e1;
@@ -1057,6 +1096,7 @@ static void run(void) {
 	part_readd();
 	part_timeouts();
 	part_sndbuf();
+	part_pollfail();
 	part_extconf();
 	part_pump();
 	part_confreadd();
